@@ -71,7 +71,13 @@ Inductive eop :=
 | EServe
 | ESync
 | EDrop
-| ERead (o1 o2 : option Z).
+| ERead (o1 o2 : option Z)
+| ECRead (o1 o2 : option Z)   (* a read through a cached cursor that is continued: only its effect on the index state
+                                 (SyncChunks, rebuild requests) is compared, which is that of a fresh read as long as
+                                 nothing but write batches happens between the reads of the cursor; what it delivers is
+                                 judged by the oracle *)
+| ESelOpen (t1 t2 : Z)   (* a chkSelector for [t1,t2] is created, kept, and asked for the status of every chunk *)
+| ESelAgain.             (* the kept selector is asked again (eo_windows = its answers) *)
 (* projection of the state: per chunk of the journal (id, hull if the index knows the chunk, index records if readable) *)
 Definition chunk_view := (Z * option (Z * Z) * option (list rec))%type.
 Definition chunk_view_eqb (a b : chunk_view) : bool :=
@@ -114,6 +120,9 @@ Definition to_op (o : eop) : op :=
   | ESync => HSync
   | EDrop => HDrop
   | ERead o1 o2 => HRead o1 o2
+  | ECRead o1 o2 => HRead o1 o2
+  | ESelOpen _ _ => HSync     (* not used: handled in e_check_step *)
+  | ESelAgain => HSync
   end.
 
 Definition windows_of (v : variant) (st : pstate) (o1 o2 : option Z) : list (Z * Z * Z) :=
@@ -122,24 +131,47 @@ Definition windows_of (v : variant) (st : pstate) (o1 o2 : option Z) : list (Z *
                  let s := fst (update_poss v ci' (eff_t1 v o1) (eff_t2 o2) (k_id k) (k_min k) (k_max k) (Z.of_nat (length (snd ck)))) in
                  (s_min s, s_max s, s_cnt s)) (combine ci' (p_chunks st)).
 
-Definition e_check_step (st : pstate) (o : eop) (b : eobs) : pstate * bool :=
-  let st' := match o with
-             | EBatchServe _ seen => serve_seen impl_variant (step impl_variant st (to_op o)) seen
-             | _ => step impl_variant st (to_op o)
-             end in
-  let ok_state := list_eqb chunk_view_eqb (view_of st') (eo_views b) && list_eqb Z.eqb (sort_z (p_queue st')) (eo_queue b) in
-  let ok_read :=
-    match o with
-    | ERead o1 o2 =>
-        list_eqb z3_eqb (runs_of (fst (range_read impl_variant st o1 o2)) None) (eo_events b)
-        && match eo_windows b with Some w => list_eqb z3_eqb (windows_of impl_variant st o1 o2) w | None => true end
-    | _ => true
-    end in
-  (st', ok_state && ok_read).
-Fixpoint e_check (st : pstate) (l : list (eop * eobs)) : bool :=
+(* the kept selector: its range and its status cache *)
+Definition sel_state := option (Z * Z * sel_cache).
+Definition windows_of_cache (sel : sel_cache) (st : pstate) : option (list (Z * Z * Z)) :=
+  fold_right (fun ck acc => match sel_find sel (fst ck), acc with
+                            | Some s, Some l => Some ((s_min s, s_max s, s_cnt s) :: l)
+                            | _, _ => None
+                            end) (Some []) (p_chunks st).
+Definition sel_obs (ss : Z * Z * sel_cache) (st : pstate) (b : eobs) : sel_state * pstate * bool :=
+  let '(t1, t2, sel) := ss in
+  let '(sel', st') := sel_walk false impl_variant t1 t2 sel st in
+  (Some (t1, t2, sel'), st',
+   match windows_of_cache sel' st, eo_windows b with
+   | Some w, Some w' => list_eqb z3_eqb w w'
+   | _, _ => false
+   end).
+Definition e_check_step (ss : sel_state) (st : pstate) (o : eop) (b : eobs) : sel_state * pstate * bool :=
+  let ok_state st' := list_eqb chunk_view_eqb (view_of st') (eo_views b) && list_eqb Z.eqb (sort_z (p_queue st')) (eo_queue b) in
+  match o with
+  | ESelOpen t1 t2 => let '(ss', st', ok) := sel_obs (t1, t2, []) st b in (ss', st', ok && ok_state st')
+  | ESelAgain => match ss with
+                 | Some x => let '(ss', st', ok) := sel_obs x st b in (ss', st', ok && ok_state st')
+                 | None => (None, st, false)
+                 end
+  | _ =>
+    let st' := match o with
+               | EBatchServe _ seen => serve_seen impl_variant (step impl_variant st (to_op o)) seen
+               | _ => step impl_variant st (to_op o)
+               end in
+    let ok_read :=
+      match o with
+      | ERead o1 o2 =>
+          list_eqb z3_eqb (runs_of (fst (range_read impl_variant st o1 o2)) None) (eo_events b)
+          && match eo_windows b with Some w => list_eqb z3_eqb (windows_of impl_variant st o1 o2) w | None => true end
+      | _ => true
+      end in
+    (match o with EDrop => None | _ => ss end, st', ok_state st' && ok_read)
+  end.
+Fixpoint e_check (ss : sel_state) (st : pstate) (l : list (eop * eobs)) : bool :=
   match l with
   | [] => true
-  | (o, b) :: tl => let '(st', ok) := e_check_step st o b in ok && e_check st' tl
+  | (o, b) :: tl => let '(ss', st', ok) := e_check_step ss st o b in ok && e_check ss' st' tl
   end.
 
 Inductive case :=
@@ -196,7 +228,7 @@ Definition check (c : case) : bool :=
       let s := fold_left (iw_get (fix_zero impl_variant)) tss iw_init in
       (iw_min s =? mn) && (iw_max s =? mx)
   | KCi ops obs => list_eqb ciobs_eqb (ci_run [] ops) obs
-  | KE2E hist => e_check p_init hist
+  | KE2E hist => e_check None p_init hist
   | KAdv mn mx cnt pos np ok =>
       let r := check_pos_or_advance (mkst mn mx cnt) pos in (fst r =? np) && Bool.eqb (snd r) ok
   end.
